@@ -39,13 +39,14 @@ def validator_for(pkg, key):
 
 
 @st.composite
-def typed_values(draw, cfg_kw=None, per_spec=(6, 14), wild=False, omit_callers=frozenset(), subclass=False):
+def typed_values(draw, cfg_kw=None, per_spec=(6, 14), wild=False, omit_callers=frozenset(), subclass=False, bias_fn=None):
     kw = dict(RT_CFG)
     kw.update(cfg_kw or {})
     api = draw(gen.api_models(gen.Cfg(**kw)))
     idx = M.Index(api)
     costs = values.Costs(idx)
     types = test_types(api)
+    bias = bias_fn(idx) if bias_fn else None
     items = []
     if types:
         for _ in range(draw(st.integers(*per_spec))):
@@ -53,7 +54,7 @@ def typed_values(draw, cfg_kw=None, per_spec=(6, 14), wild=False, omit_callers=f
             if costs.texpr(t) >= values.Costs.INF:
                 continue
             v = draw(values.value_for(idx, costs, t, fuel=draw(st.integers(0, 3)), wild=wild,
-                                          omit_callers=omit_callers, subclass=subclass))
+                                          omit_callers=omit_callers, subclass=subclass, bias=bias))
             if not values.is_complete(v):
                 continue
             items.append((key, t, v))
